@@ -145,6 +145,20 @@ CHECKS = {
         note="direct calls on a real Databases; membership stable; end-to-end accounting also observed in cluster runs",
         technique="TLA+ reference + implementation twin (TLC exhaustive) + TLC trace validation of real calls",
         design="DESIGN.md §5 C15"),
+    "C11": dict(
+        level="fault_enumeration",
+        text="Every file-system call on the snapshot path carries a crash_point hook; for a family of "
+             "before/after datasets (new / updated / removed / incremented keys, values larger and smaller "
+             "than the writer buffer, 12 new keys, incremental and reclaiming, 1-2 databases) the data "
+             "directory is imaged after every call of the interrupted snapshot, every image is loaded by "
+             "the real start-up code, and TLC validates each image against the reference Trace_Crash "
+             "(start succeeds; every previously persisted key has its old or its being-written value and "
+             "version; no phantom key; neighbours untouched).",
+        note="kill model = process kill between file-system calls (buffered bytes lost, written bytes kept); "
+             "power loss and torn single writes out of scope; start-up probed in a child process with "
+             "address-space and time limits",
+        technique="TLA+ reference trace spec + TLC validation of crash images enumerated at every file-system call",
+        design="DESIGN.md §5 C11"),
 }
 
 NOT_YET = "check not built yet (build in progress; see DESIGN.md §8 build order)"
